@@ -77,8 +77,11 @@ CLAIMED = {
     "C15": dict(
         category="other",
         text="PARTIAL. The sticky assignor is ported to Lean (Model/StickyAlg.lean) and every explored round is compared "
-             "byte for byte with the real assignor, but no theorem about the port's stickiness over all inputs is proved. "
-             "What is machine-checked: the three stickiness clauses as Lean functions over two consecutive "
+             "byte for byte with the real assignor. Proved for every state of the port: c15_fixpoint_partial — a complete "
+             "assignment that the code's own _is_balanced accepts (after the fixed consumers are set aside) is a fixpoint "
+             "of balance(): every consumer keeps exactly its list (clause (a) under that hypothesis; the check counts how "
+             "often the hypothesis holds on explored second rounds: about 89 %). Clauses (b) and (c) have no ∀-input "
+             "theorem. Also machine-checked: the three stickiness clauses as Lean functions over two consecutive "
              "assignments with soundness lemmas (a true verdict means: owners unchanged / a survivor's partition stays with "
              "it / a partition owned by an old member was already its own), and the round trip of the real user-data "
              "struct (instance of C11's generic theorem over the regenerated schema). The check evaluates those Lean "
